@@ -317,7 +317,7 @@ Proof.
   - apply handle_obs_14; exact HI.
   - destruct (nth_error _ _); [|exact HI]. apply handle_obs_14. exact HI.
   - unfold Processor.handle_inbound. destruct (unmarshal b); [|exact HI]. destruct (cur st) eqn:Ec; [|exact HI].
-    destruct (_ =? _)%nat; [exact HI|]. destruct (_ =? _)%nat; [exact HI|]. destruct (_ <? _); [exact HI|].
+    destruct (_ =? _)%nat; [exact HI|]. destruct (_ =? _)%nat; [exact HI|]. destruct (proc_inbound_below_quorum _ _); [exact HI|].
     destruct (verify_sigs _ _ _ _); cbn [negb]; [|exact HI]. destruct (dlookup _ _); [exact HI|].
     cbn [fst]. unfold Inv14 in *. cbn [cur agg]. rewrite Ec in HI. exact HI.
   - unfold Processor.handle_cleanup. pose proof (cleanup_all_14 st (clock st + 1) (agg st) HI) as H.
